@@ -1370,7 +1370,7 @@ class ProcessPoolExecutor(Executor):
         if executor_manager_thread_wakeup is not None:
             # Wake up queue management thread
             with self._shutdown_lock:
-                self._executor_manager_thread_wakeup.wakeup()
+                executor_manager_thread_wakeup.wakeup()
 
         if executor_manager_thread is not None and wait:
             # This locks avoids concurrent join if the interpreter
